@@ -141,3 +141,32 @@ impl Debug for Params {
         write!(f, "]")
     }
 }
+
+/// Verification hooks: construct / observe an arbitrary parameter list
+#[cfg(any(kani, rust_cli_anstyle_verif))]
+impl Params {
+    #[doc(hidden)]
+    pub fn verif_from_parts(
+        subparams: [u8; MAX_PARAMS],
+        params: [u16; MAX_PARAMS],
+        current_subparams: u8,
+        len: usize,
+    ) -> Self {
+        Self {
+            subparams,
+            params,
+            current_subparams,
+            len,
+        }
+    }
+
+    #[doc(hidden)]
+    pub fn verif_parts(&self) -> (&[u8; MAX_PARAMS], &[u16; MAX_PARAMS], u8, usize) {
+        (
+            &self.subparams,
+            &self.params,
+            self.current_subparams,
+            self.len,
+        )
+    }
+}
